@@ -6,13 +6,400 @@ import RelicVerif.Model.Err
 
 namespace Relic.Model.Err
 
+/-! ## catch-variable store -/
+
+theorem find_filter_ne (vs : List (Nat × Nat)) (id i : Nat) (h : i ≠ id) :
+    (vs.filter (·.1 ≠ id)).find? (·.1 = i) = vs.find? (·.1 = i) := by
+  rw [List.find?_filter]
+  congr 1
+  funext a
+  by_cases hi : a.1 = i
+  · simp [hi]
+    omega
+  · simp [hi]
+
+theorem getVar_setVar (vs : List (Nat × Nat)) (id v i : Nat) :
+    getVar (setVar vs id v) i = if i = id then v else getVar vs i := by
+  unfold getVar setVar
+  by_cases h : i = id
+  · subst h; simp
+  · have h' : ¬ id = i := fun e => h e.symm
+    simp only [h, if_false]
+    rw [List.find?_cons]
+    simp only [h', decide_false]
+    rw [find_filter_ne vs id i h]
+
+/-! ## simulation -/
+
+/-- id of the innermost frame -/
+def hid (ms : MSt) : Nat :=
+  match ms.last with
+  | f :: _ => f.id
+  | [] => 0
+
+def topChain (b : Bool) : List Frame := if b then [{ id := 0, block := false }] else []
+
+def Pre (d : Nat) (ms : MSt) (ss : SSt) : Prop :=
+  ms.trace = ss.trace ∧ ms.code = ss.code ∧
+  (d = 0 → ms.last = topChain ss.top) ∧
+  (0 < d → ∃ f rest, ms.last = f :: rest ∧ f.block = true ∧ f.id ≤ ms.next)
+
+def Post (d : Nat) (ms : MSt) (ss : SSt) (mr : MOut × MSt) (sr : SOut × SSt) : Prop :=
+  mr.2.trace = sr.2.trace ∧ mr.2.code = sr.2.code ∧ ms.next ≤ mr.2.next ∧
+  (0 < d → sr.2.top = ss.top) ∧
+  match sr.1 with
+  | .normal =>
+    mr.1 = .normal ∧ (d = 0 → mr.2.last = topChain sr.2.top) ∧ (0 < d → mr.2.last = ms.last) ∧
+    ∀ i, i ≤ ms.next → getVar mr.2.vars i = getVar ms.vars i
+  | .thrown e =>
+    0 < d ∧ mr.1 = .jump (hid ms) ∧
+    ∀ i, i ≤ ms.next → getVar mr.2.vars i = if i = hid ms ∧ e ≠ 0 then e else getVar ms.vars i
+
+theorem Pre_of_Post_normal {d ms ss mr sr} (hpre : Pre d ms ss) (hp : Post d ms ss mr sr)
+    (hn : sr.1 = .normal) : Pre d mr.2 sr.2 := by
+  obtain ⟨h1, h2, h3, h4⟩ := hpre
+  obtain ⟨p1, p2, p3, p4, p5⟩ := hp
+  rw [hn] at p5
+  obtain ⟨q1, q2, q3, q4⟩ := p5
+  refine ⟨p1, p2, q2, ?_⟩
+  intro hd
+  obtain ⟨f, rest, e1, e2, e3⟩ := h4 hd
+  exact ⟨f, rest, by rw [q3 hd, e1], e2, by omega⟩
+
+theorem Post_mono {d ms ss ms2 ss2 mr sr} (hn : ms.next ≤ ms2.next) (hl : 0 < d → ms2.last = ms.last)
+    (ht : 0 < d → ss2.top = ss.top) (hv : ∀ i, i ≤ ms.next → getVar ms2.vars i = getVar ms.vars i)
+    (hp : Post d ms2 ss2 mr sr) : Post d ms ss mr sr := by
+  obtain ⟨p1, p2, p3, p4, p5⟩ := hp
+  refine ⟨p1, p2, by omega, fun hd => by rw [p4 hd, ht hd], ?_⟩
+  cases hs : sr.1 with
+  | normal =>
+    rw [hs] at p5
+    obtain ⟨q1, q2, q3, q4⟩ := p5
+    refine ⟨q1, q2, fun hd => by rw [q3 hd, hl hd], ?_⟩
+    intro i hi
+    rw [q4 i (by omega), hv i hi]
+  | thrown e =>
+    rw [hs] at p5
+    obtain ⟨q1, q2, q3⟩ := p5
+    have hh : hid ms2 = hid ms := by unfold hid; rw [hl q1]
+    refine ⟨q1, by rw [q2, hh], ?_⟩
+    intro i hi
+    rw [q3 i (by omega), hv i hi, hh]
+
+theorem Post_refl_normal {d ms ss ms' ss'} (hpre : Pre d ms ss) (ht : ms'.trace = ss'.trace)
+    (hc : ms'.code = ss'.code) (hl : ms'.last = ms.last) (hn : ms'.next = ms.next)
+    (hv : ms'.vars = ms.vars) (htop : ss'.top = ss.top) :
+    Post d ms ss (.normal, ms') (.normal, ss') := by
+  obtain ⟨h1, h2, h3, h4⟩ := hpre
+  refine ⟨ht, hc, by simp [hn], fun _ => htop, rfl, ?_, fun _ => hl, ?_⟩
+  · intro hd; simp only [hl, htop]; exact h3 hd
+  · intro i _; simp only [hv]
+
+theorem sim_throw (e d : Nat) (ms : MSt) (ss : SSt) (hpre : Pre d ms ss) :
+    Post d ms ss (mThrow ms e) (sEval (.throw e) d ss) := by
+  obtain ⟨h1, h2, h3, h4⟩ := hpre
+  cases d with
+  | zero =>
+    have hl := h3 rfl
+    simp only [sEval, if_true]
+    unfold mThrow
+    cases htop : ss.top with
+    | false =>
+      rw [htop] at hl
+      simp only [topChain] at hl
+      simp only [hl]
+      refine ⟨h1, rfl, Nat.le_refl _, fun hd => absurd hd (by omega), rfl, fun _ => rfl,
+        fun hd => absurd hd (by omega), fun i _ => rfl⟩
+    | true =>
+      rw [htop] at hl
+      simp only [topChain, if_true] at hl
+      simp only [hl]
+      refine ⟨h1, rfl, Nat.le_refl _, fun hd => absurd hd (by omega), rfl, fun _ => ?_,
+        fun hd => absurd hd (by omega), fun i _ => rfl⟩
+      simp [topChain]
+  | succ d =>
+    obtain ⟨f, rest, e1, e2, e3⟩ := h4 (by omega)
+    have hne : d + 1 ≠ 0 := by omega
+    simp only [sEval, hne, if_false]
+    unfold mThrow
+    simp only [e1, e2, if_true]
+    have hh : hid ms = f.id := by unfold hid; rw [e1]
+    refine ⟨?_, ?_, ?_, fun _ => rfl, by omega, by rw [hh], ?_⟩
+    · split <;> exact h1
+    · split <;> rfl
+    · split <;> exact Nat.le_refl _
+    · intro i hi
+      rw [hh]
+      by_cases he : e = 0
+      · simp [he]
+      · simp only [he, ne_eq, not_false_eq_true, if_true, and_true]
+        rw [getVar_setVar]
+
+theorem sim_tail (handler fin : Prog) (var : Bool) (id : Nat) (latched : Bool) (d : Nat)
+    (ihf : ∀ ms ss, Pre d ms ss → Post d ms ss (mEval true fin ms) (sEval fin d ss))
+    (ihh : ∀ ms ss, Pre d ms ss → Post d ms ss (mEval true handler ms) (sEval handler d ss))
+    (ms : MSt) (ss : SSt) (hpre : Pre d ms ss) (hid : id ≤ ms.next) (ev : Nat)
+    (hv : latched = true → var = true → getVar ms.vars id = ev) :
+    Post d ms ss (mTail true (mEval true fin) (mEval true handler) var id latched ms)
+      (if latched then
+        (match sEval fin d ss with
+         | (.normal, s) =>
+           sEval handler d (if var then { s with trace := s.trace ++ [.caught ev] } else s)
+         | r => r)
+       else sEval fin d ss) := by
+  have hf := ihf ms ss hpre
+  unfold mTail
+  generalize hm : mEval true fin ms = mr at hf
+  generalize hs : sEval fin d ss = sr at hf
+  obtain ⟨mo, ms'⟩ := mr
+  obtain ⟨so, ss'⟩ := sr
+  cases so with
+  | normal =>
+    have hpre' := Pre_of_Post_normal hpre hf rfl
+    obtain ⟨p1, p2, p3, p4, p5⟩ := hf
+    obtain ⟨q1, q2, q3, q4⟩ := p5
+    simp only at q1
+    subst q1
+    simp only [if_true]
+    cases latched with
+    | false =>
+      simp only [Bool.false_eq_true, if_false]
+      exact ⟨p1, p2, p3, p4, rfl, q2, q3, q4⟩
+    | true =>
+      simp only [if_true]
+      cases var with
+      | false => exact Post_mono (ms2 := ms') (ss2 := ss') p3 q3 p4 q4 (ihh _ _ hpre')
+      | true =>
+        simp only [if_true]
+        refine Post_mono (hp := ihh _ _ ?_) p3 q3 p4 q4
+        obtain ⟨r1, r2, r3, r4⟩ := hpre'
+        refine ⟨?_, r2, r3, r4⟩
+        simp only at r1 q4 ⊢
+        rw [r1, q4 id hid, hv rfl rfl]
+  | thrown e =>
+    have hj := hf.2.2.2.2.2.1
+    simp only at hj
+    subst hj
+    cases latched <;> exact hf
+
+theorem sim (p : Prog) : ∀ d ms ss, Pre d ms ss → Post d ms ss (mEval true p ms) (sEval p d ss) := by
+  induction p with
+  | skip =>
+    intro d ms ss hpre
+    exact Post_refl_normal hpre hpre.1 hpre.2.1 rfl rfl rfl rfl
+  | act n =>
+    intro d ms ss hpre
+    simp only [mEval, sEval]
+    exact Post_refl_normal hpre (by simp [hpre.1]) hpre.2.1 rfl rfl rfl rfl
+  | getcode =>
+    intro d ms ss hpre
+    simp only [mEval, sEval]
+    exact Post_refl_normal hpre (by simp [hpre.1, hpre.2.1]) rfl rfl rfl rfl rfl
+  | throw e =>
+    intro d ms ss hpre
+    simp only [mEval]
+    exact sim_throw e d ms ss hpre
+  | seq p q ihp ihq =>
+    intro d ms ss hpre
+    have hp := ihp d ms ss hpre
+    simp only [mEval, sEval]
+    generalize hm : mEval true p ms = mr at hp
+    generalize hs : sEval p d ss = sr at hp
+    obtain ⟨mo, ms'⟩ := mr
+    obtain ⟨so, ss'⟩ := sr
+    cases so with
+    | normal =>
+      have hpre' := Pre_of_Post_normal hpre hp rfl
+      obtain ⟨p1, p2, p3, p4, p5⟩ := hp
+      obtain ⟨q1, q2, q3, q4⟩ := p5
+      simp only at q1
+      subst q1
+      simp only
+      exact Post_mono p3 q3 p4 q4 (ihq d ms' ss' hpre')
+    | thrown e =>
+      have hj := hp.2.2.2.2.2.1
+      simp only at hj
+      subst hj
+      exact hp
+  | tryc body handler fin var ihb ihh ihf =>
+    intro d ms ss hpre
+    simp only [mEval, sEval]
+    obtain ⟨ms1, hms1⟩ : ∃ ms1 : MSt, ms1 = { ms with
+        last := { id := ms.next + 1, block := true } :: ms.last, next := ms.next + 1,
+        vars := if var then setVar ms.vars (ms.next + 1) 99 else ms.vars } := ⟨_, rfl⟩
+    rw [← hms1]
+    have hl1 : ms1.last = { id := ms.next + 1, block := true } :: ms.last := by rw [hms1]
+    have hn1 : ms1.next = ms.next + 1 := by rw [hms1]
+    have hv1 : ms1.vars = if var then setVar ms.vars (ms.next + 1) 99 else ms.vars := by rw [hms1]
+    have ht1 : ms1.trace = ms.trace := by rw [hms1]
+    have hc1 : ms1.code = ms.code := by rw [hms1]
+    have hh1 : hid ms1 = ms.next + 1 := by unfold hid; rw [hl1]
+    have hpre1 : Pre (d + 1) ms1 ss := by
+      refine ⟨by rw [ht1]; exact hpre.1, by rw [hc1]; exact hpre.2.1, fun h => absurd h (by omega), ?_⟩
+      intro _
+      exact ⟨_, _, hl1, rfl, by rw [hn1]; exact Nat.le_refl _⟩
+    have hb := ihb (d + 1) ms1 ss hpre1
+    generalize hm : mEval true body ms1 = mr at hb ⊢
+    generalize hs : sEval body (d + 1) ss = sr at hb ⊢
+    obtain ⟨mo, msb⟩ := mr
+    obtain ⟨so, ssb⟩ := sr
+    obtain ⟨p1, p2, p3, p4, p5⟩ := hb
+    simp only at p1 p2 p3 p4 p5
+    have p4 := p4 (by omega)
+    -- the state in which FINALLY starts
+    have hpre2 : ∀ c, Pre d { msb with caught := c, last := ms.last } ssb := by
+      intro c
+      obtain ⟨h1, h2, h3, h4⟩ := hpre
+      refine ⟨p1, p2, ?_, ?_⟩
+      · intro hd; rw [p4]; exact h3 hd
+      · intro hd
+        obtain ⟨f, rest, e1, e2, e3⟩ := h4 hd
+        exact ⟨f, rest, e1, e2, by simp only; omega⟩
+    cases so with
+    | normal =>
+      obtain ⟨q1, q2, q3, q4⟩ := p5
+      subst q1
+      simp only
+      have ht := sim_tail handler fin var (ms.next + 1) false d (ihf d) (ihh d) _ ssb (hpre2 false)
+        (by simp only; omega) 0 (fun h => absurd h (by simp))
+      simp only [Bool.false_eq_true, if_false] at ht
+      refine Post_mono (hp := ht) ?_ ?_ (fun _ => p4) ?_
+      · simp only; omega
+      · intro _; rfl
+      intro i hi
+      simp only
+      rw [q4 i (by omega), hv1]
+      split
+      · rw [getVar_setVar, if_neg (by omega)]
+      · rfl
+    | thrown e =>
+      obtain ⟨q1, q2, q3⟩ := p5
+      subst q2
+      rw [hh1]
+      simp only [ne_eq, not_true_eq_false, if_false]
+      have ht := sim_tail handler fin var (ms.next + 1) true d (ihf d) (ihh d) _ ssb (hpre2 true)
+        (by simp only; omega) (if e = 0 then 99 else e) (by
+          intro _ hvar
+          simp only
+          rw [q3 _ (by omega), hh1, hv1, hvar]
+          by_cases he : e = 0
+          · simp [he, getVar_setVar]
+          · simp [he])
+      simp only [if_true] at ht
+      refine Post_mono (hp := ht) ?_ ?_ (fun _ => p4) ?_
+      · simp only; omega
+      · intro _; rfl
+      intro i hi
+      simp only
+      rw [q3 i (by omega), hh1, if_neg (by omega), hv1]
+      split
+      · rw [getVar_setVar, if_neg (by omega)]
+      · rfl
+
 /-- with the repaired RLC_ERR_CATCH (flag latched before FINALLY): every program, every nesting shape -/
 theorem mRun_eq_sRun (p : Prog) : mRun true p = sRun p := by
-  sorry
+  have hpre : Pre 0 {} {} := ⟨rfl, rfl, fun _ => rfl, fun h => absurd h (by omega)⟩
+  have h := sim p 0 {} {} hpre
+  unfold mRun sRun
+  generalize mEval true p {} = mr at h
+  generalize sEval p 0 {} = sr at h
+  obtain ⟨mo, ms'⟩ := mr
+  obtain ⟨so, ss'⟩ := sr
+  obtain ⟨p1, p2, p3, p4, p5⟩ := h
+  cases so with
+  | thrown e => exact absurd p5.1 (by omega)
+  | normal =>
+    obtain ⟨q1, q2, q3, q4⟩ := p5
+    have q2 := q2 rfl
+    simp only at p1 p2 q2 ⊢
+    rw [p1, p2, q2]
+    cases ss'.top <;> rfl
+
+/-! ## the original macro on the fragment without protected blocks inside FINALLY -/
+
+theorem mThrow_caught (s : MSt) (e : Nat) : (mThrow s e).2.caught = s.caught := by
+  unfold mThrow
+  simp only
+  split
+  · rfl
+  · split
+    · split <;> rfl
+    · rfl
+
+theorem noTry_caught (l : Bool) (p : Prog) (h : finallyFree.noTry p = true) :
+    ∀ s, (mEval l p s).2.caught = s.caught := by
+  induction p with
+  | skip => intro s; rfl
+  | act n => intro s; rfl
+  | getcode => intro s; rfl
+  | throw e => intro s; simp only [mEval]; exact mThrow_caught s e
+  | seq p q ihp ihq =>
+    intro s
+    simp only [finallyFree.noTry, Bool.and_eq_true] at h
+    have hp := ihp h.1 s
+    simp only [mEval]
+    generalize mEval l p s = mr at hp ⊢
+    obtain ⟨mo, s'⟩ := mr
+    cases mo with
+    | normal => simp only; rw [ihq h.2 s']; exact hp
+    | jump t => exact hp
+  | tryc b hd f v _ _ _ => simp [finallyFree.noTry] at h
+
+theorem mTail_latch_irrelevant (evalFin evalHandler : MSt → MOut × MSt) (var : Bool) (id : Nat)
+    (latched : Bool) (s : MSt) (hc : ∀ s, (evalFin s).2.caught = s.caught) (hs : s.caught = latched) :
+    mTail false evalFin evalHandler var id latched s = mTail true evalFin evalHandler var id latched s := by
+  unfold mTail
+  have h := hc s
+  generalize evalFin s = r at h ⊢
+  obtain ⟨o, s'⟩ := r
+  cases o with
+  | jump t => rfl
+  | normal =>
+    simp only at h ⊢
+    rw [h, hs]
+    simp
+
+theorem mEval_orig_eq (p : Prog) (h : finallyFree p = true) : ∀ s, mEval false p s = mEval true p s := by
+  induction p with
+  | skip => intro s; rfl
+  | act n => intro s; rfl
+  | getcode => intro s; rfl
+  | throw e => intro s; rfl
+  | seq p q ihp ihq =>
+    intro s
+    simp only [finallyFree, Bool.and_eq_true] at h
+    simp only [mEval]
+    rw [ihp h.1 s]
+    generalize mEval true p s = mr
+    obtain ⟨mo, s'⟩ := mr
+    cases mo with
+    | normal => exact ihq h.2 s'
+    | jump t => rfl
+  | tryc b hd f v ihb ihh ihf =>
+    intro s
+    simp only [finallyFree, Bool.and_eq_true] at h
+    obtain ⟨⟨⟨hb, hh⟩, hf⟩, hn⟩ := h
+    have e1 : mEval false f = mEval true f := funext (ihf hf)
+    have e2 : mEval false hd = mEval true hd := funext (ihh hh)
+    simp only [mEval]
+    rw [ihb hb, e1, e2]
+    generalize mEval true b _ = mr
+    obtain ⟨mo, s'⟩ := mr
+    cases mo with
+    | normal =>
+      simp only
+      exact mTail_latch_irrelevant _ _ _ _ _ _ (noTry_caught true f hn) rfl
+    | jump t =>
+      simp only
+      split
+      · rfl
+      · exact mTail_latch_irrelevant _ _ _ _ _ _ (noTry_caught true f hn) rfl
 
 /-- the original macro (flag re-read after FINALLY) is right exactly on the fragment without protected
     blocks inside FINALLY bodies -/
 theorem mRun_orig_eq_sRun_of_finallyFree (p : Prog) (h : finallyFree p = true) : mRun false p = sRun p := by
-  sorry
+  rw [← mRun_eq_sRun p]
+  unfold mRun
+  rw [mEval_orig_eq p h]
 
 end Relic.Model.Err
